@@ -29,6 +29,7 @@ func main() {
 		out     = flag.String("out", "", "result stream")
 		cursor  = flag.String("cursor", "", "cursor file")
 		verbose = flag.Bool("verbose", false, "print violations")
+		arg     = flag.String("arg", "", "property-specific argument (C04: a go-fuzz corpus file to replay)")
 	)
 	flag.Parse()
 
@@ -60,7 +61,7 @@ func main() {
 		return
 	}
 
-	ctx := &core.Ctx{Prop: p, Tier: *tier, Lane: *lane, Seed: *seed, Shard: *shard, NShards: *nshards, Cases: *cases, Verbose: *verbose}
+	ctx := &core.Ctx{Prop: p, Tier: *tier, Lane: *lane, Seed: *seed, Shard: *shard, NShards: *nshards, Cases: *cases, Verbose: *verbose, Arg: *arg}
 	if *out == "" {
 		*out = "/dev/null"
 	}
